@@ -43,11 +43,22 @@ fn expand(sc: &Scenario) -> Vec<(String, Vec<Cmd>)> {
     let mut v = Vec::new();
     for l in &sc.script {
         if let Some(k) = l.strip_prefix('#') {
-            let k: usize = k.parse().unwrap_or(1);
+            // "#k" = the next k commands separated by blanks; "#k!" = written without any separator
+            let tight = k.ends_with('!');
+            let k: usize = k.trim_end_matches('!').parse().unwrap_or(1);
             let end = (pos + k).min(sc.cmds.len());
             if end > pos {
                 let cmds = sc.cmds[pos..end].to_vec();
-                v.push((reflang::program_source(&cmds), cmds));
+                let text = if tight {
+                    let mut t = String::new();
+                    for c in &cmds {
+                        c.source(&mut t);
+                    }
+                    t
+                } else {
+                    reflang::program_source(&cmds)
+                };
+                v.push((text, cmds));
                 pos = end;
             }
         } else {
@@ -440,7 +451,7 @@ impl Property for C12 {
             if second > pos && pos + k > second {
                 k = second - pos;
             }
-            sc.script.push(format!("#{}", k));
+            sc.script.push(if rng.chance(10) { format!("#{}!", k) } else { format!("#{}", k) });
             left -= k;
             pos += k;
         }
@@ -448,7 +459,7 @@ impl Property for C12 {
             // the idiom the help text advertises, entered as a line of its own: it is a program, not a keyword
             sc.cmds.push(Cmd::new(5, 1, 1, RArea::Nil));
             sc.cmds.push(Cmd::new(1, 2, 3, RArea::Nil));
-            sc.script.push("#2".to_string());
+            sc.script.push("#2!".to_string());
         }
         if rng.chance(10) {
             sc.script.push("exit".to_string());
@@ -470,7 +481,7 @@ impl Property for C12 {
     }
     fn repair(&self, sc: &mut Scenario) -> bool {
         // keep "#k" lines within the command list after shrinking
-        let total: usize = sc.script.iter().filter_map(|l| l.strip_prefix('#').and_then(|k| k.parse::<usize>().ok())).sum();
+        let total: usize = sc.script.iter().filter_map(|l| l.strip_prefix('#').and_then(|k| k.trim_end_matches('!').parse::<usize>().ok())).sum();
         if total < sc.cmds.len() {
             sc.cmds.truncate(total);
         }
